@@ -436,7 +436,21 @@ def organize(
     for tn in task_names:
         for t in dawgie.pl.schedule.ae.at:
             for n in t.locate(tn):
-                n.set('runid', runid)
+                if n.get('todo'):
+                    # the job is still waiting for an earlier event: it runs
+                    # once for both, under the newer run ID (None = a fresh
+                    # one), so that it loads the newest inputs
+                    held = n.get('runid')
+                    n.set(
+                        'runid',
+                        (
+                            None
+                            if held is None or runid is None
+                            else max(held, runid)
+                        ),
+                    )
+                else:
+                    n.set('runid', runid)
                 n.set(
                     'status',
                     (
